@@ -650,6 +650,43 @@ def run(ctx):
     ctx.check("writer-order", "encode/count-offsets-tags-values", kinds == ["count", "offset", "tag", "value"] and
               all(enc.dominates(evs[i][3], evs[i + 1][3]) or not enc.reaches(evs[i + 1][3], evs[i][3]) for i in range(len(evs) - 1)),
               "encode writes count, offsets, tags, values in that order", "encode writes %s" % kinds, ctx.loc(enc))
+    # every header word and value is written unconditionally: once per loop iteration, under no condition on the field data.  (An offset
+    # skipped "because it is zero" drops the entry of a field that follows an empty value, and the header no longer has num_tags-1 offsets.)
+    selfp = ("param", enc.path, 1)
+    SHAPE = (("len", ("field", selfp, "tags")), ("len", ("field", selfp, "values")))
+
+    def shape_only(t):
+        if t in SHAPE or (isinstance(t, tuple) and t and t[0] == "int"):
+            return True
+        if isinstance(t, tuple) and t and t[0] == "len" and len(t) == 3 and ("len", t[1]) in SHAPE:
+            return True
+        if isinstance(t, tuple) and t and t[0] in ("bin", "cast", "not", "un"):
+            return all(shape_only(x) for x in t[1:] if isinstance(x, tuple))
+        ie = iter_elem(W, t)
+        if ie and ie["what"] == "index" and ie["container"] in (("field", selfp, "tags"), ("field", selfp, "values")):
+            return True
+        return False
+    nw = 0
+    for (_, name, a, b), kind in zip([x for x in evs if x[1] not in ("reserve", "reserve_exact")], kinds):
+        nw += 1
+        badc = None
+        for c in enc.control_deps(b):
+            cond = W.expand(eev.op(enc.blocks[c].term["op"], (c, "term")))
+            if cond[0] == "discr" and is_call(values.strip_payload(cond[1])) and callee_name(values.strip_payload(cond[1])[1]) in ("next", "branch"):
+                if kind == "offset" and callee_name(values.strip_payload(cond[1])[1]) == "next":
+                    src = W.expand(values.strip_payload(cond[1])[2][0])
+                    while isinstance(src, tuple) and src and src[0] == "reader":
+                        src = src[1]
+                    if src == ("field", selfp, "values"):
+                        badc = "the offset loop runs over all of self.values: it writes as many offsets as values, the header has one fewer"
+                continue
+            if shape_only(cond):
+                continue
+            badc = "written only when %s" % fmt(cond)[:160]
+        ctx.check("writer-unconditional", "encode/%s@%s" % (kind, fmt(W.expand(a[-1]))[:40] if a else ""), badc is None,
+                  "the %s write happens on every pass (conditions: loop iteration / message shape only)" % kind,
+                  "encode's %s write is conditional on the data: %s; the header layout then disagrees with the tag count for some messages" % (kind, badc), enc.loc(b))
+    ctx.floor("writer-unconditional", nw, 4, "layout writes in encode (count, offsets, tags, values)")
     ef = ctx.fn(MSG + "::encode_framed")
     fev = W.ev(ef.path)
     r = ok_payload(fev.ret())
